@@ -720,8 +720,12 @@ def _main(prop, tier, seed, replay, tmpdir, t0):
         "violations": len(violations),
     }
     if not replay:
-        os.makedirs(os.path.join(VERIF, "evidence"), exist_ok=True)
-        with open(os.path.join(VERIF, "evidence", prop_id + ".json"), "w") as f:
+        # runs against a scratch tree (VERIF_REPO, used for seeded changes and rewrites) keep their evidence apart:
+        # evidence/<id>.json always describes a run against /repo itself
+        evdir = os.path.join(VERIF, "evidence") if os.path.realpath(REPO) == "/repo" \
+            else os.path.join(VERIF, "gen", "evidence-scratch")
+        os.makedirs(evdir, exist_ok=True)
+        with open(os.path.join(evdir, prop_id + ".json"), "w") as f:
             json.dump(ev, f, indent=1, default=str)
 
     nobs = len([o for o in obs if o is not None])
